@@ -18,12 +18,22 @@ package main
 
 import (
 	"bufio"
+	"context"
 	"encoding/base64"
 	"encoding/json"
+	"fmt"
+	"net"
 	"net/http"
 	"net/http/httptest"
 	"os"
+	"path/filepath"
 	"strings"
+	"time"
+
+	"github.com/ErdemOzgen/blackdagger/internal/client"
+	"github.com/ErdemOzgen/blackdagger/internal/config"
+	"github.com/ErdemOzgen/blackdagger/internal/frontend"
+	dsclient "github.com/ErdemOzgen/blackdagger/internal/persistence/client"
 
 	"github.com/ErdemOzgen/blackdagger/internal/frontend/middleware"
 	"github.com/ErdemOzgen/blackdagger/internal/logger"
@@ -65,13 +75,15 @@ var secretSets = []secrets{
 	{"user-with-colon", "a:b", "pw", "Bearer"},
 	{"utf8", "üser", "päss", "tökén"},
 	{"empty-user", "", "pw", "x"},
+	{"colons-in-password", "admin", "a:b:c", "t:k"},
+	{"password-is-colon", "admin", ":", "tk"},
 }
 
 var schemes = []string{"Basic", "basic", "BASIC", "Bearer", "bearer", "Token", "none"}
 var spacings = []string{"one", "two", "tab", "none", "trailing"}
 var payloads = []string{"right", "wrong-user", "wrong-pass", "empty-pass", "prefix-pass", "extended-pass", "invalid-b64",
 	"unpadded", "no-colon", "token", "token-prefix", "token-suffix", "empty", "raw-pass", "crlf-b64", "b64-extra-word",
-	"token-extra-word", "trailing-bits", "token-upper"}
+	"token-extra-word", "trailing-bits", "token-upper", "pass-colon-junk", "pass-first-colon-part"}
 var methods = []string{"GET", "POST", "PUT", "DELETE", "PATCH", "HEAD", "OPTIONS"}
 var bases = []string{"", "/bd", "/b/"}
 var keyHeaders = [][3]string{{"none", "none", "empty"}, {"Basic", "one", "right"}, {"Bearer", "one", "token"},
@@ -142,6 +154,10 @@ func payload(kind string, s secrets) string {
 		return trailingBits(right)
 	case "token-upper":
 		return strings.ToUpper(s.t)
+	case "pass-colon-junk": // user:password:junk - NOT the configured password
+		return b64(s.u + ":" + s.p + ":junk")
+	case "pass-first-colon-part": // the password cut at its first colon
+		return b64(s.u + ":" + strings.SplitN(s.p, ":", 2)[0])
 	}
 	panic(kind)
 }
@@ -244,6 +260,103 @@ func build(stream string, cfgI, secI int, base, method, target, scheme, spacing,
 	return c
 }
 
+// the real server: secrets with surrounding white space must be compared byte for byte too
+func serverStream(emit func(Case), scratch string) {
+	dir, err := os.MkdirTemp(scratch, "authsrv-")
+	if err != nil {
+		return
+	}
+	defer os.RemoveAll(dir)
+	_ = os.Setenv("HOME", dir)
+	_ = os.Setenv("BLACKDAGGER_HOME", filepath.Join(dir, ".bd"))
+	base, err := config.Load()
+	if err != nil {
+		emit(Case{Stream: "server", Class: -1, Scheme: "config.Load: " + err.Error()})
+		return
+	}
+	for _, d := range []string{"dags", "data", "logs", "suspend"} {
+		_ = os.MkdirAll(filepath.Join(dir, d), 0o755)
+	}
+	type sc struct{ u, p string }
+	for _, x := range []sc{{"admin", "s3cret"}, {"admin", "s3cret "}, {"admin", "s3cret\n"}, {"admin", "  "}, {"admin", " lead"}, {"admin ", "pw"}, {"admin", "a:b "}} {
+		l, err := net.Listen("tcp", "127.0.0.1:0")
+		if err != nil {
+			continue
+		}
+		port := l.Addr().(*net.TCPAddr).Port
+		_ = l.Close()
+		cfg := *base
+		cfg.Host, cfg.Port = "127.0.0.1", port
+		cfg.DAGs, cfg.DataDir, cfg.LogDir, cfg.SuspendFlagsDir = filepath.Join(dir, "dags"), filepath.Join(dir, "data"), filepath.Join(dir, "logs"), filepath.Join(dir, "suspend")
+		cfg.BasePath = ""
+		cfg.IsBasicAuth, cfg.BasicAuthUsername, cfg.BasicAuthPassword, cfg.IsAuthToken = true, x.u, x.p, false
+		ds := dsclient.NewDataStores(cfg.DAGs, cfg.DataDir, cfg.SuspendFlagsDir, dsclient.DataStoreOptions{})
+		srv := frontend.New(&cfg, lg, client.New(ds, "", dir, lg))
+		ctx, cancel := context.WithCancel(context.Background())
+		done := make(chan struct{})
+		go func() { defer close(done); _ = srv.Serve(ctx) }()
+		up := false
+		for i := 0; i < 200 && !up; i++ {
+			if c, err := net.DialTimeout("tcp", fmt.Sprintf("127.0.0.1:%d", port), time.Second); err == nil {
+				_ = c.Close()
+				up = true
+			} else {
+				time.Sleep(20 * time.Millisecond)
+			}
+		}
+		if up {
+			s := secrets{"server", x.u, x.p, ""}
+			for _, pl := range []string{"right", "wrong-pass", "empty-pass", "prefix-pass", "extended-pass", "pass-colon-junk"} {
+				for _, trimmed := range []bool{false, true} {
+					c := Case{Stream: "server", HB: true, U: x.u, P: x.p, Method: "GET", Target: "/api/v1/dags", Path: "/api/v1/dags",
+						Scheme: "Basic", Spacing: "one", Payload: pl}
+					c.Hdr = "Basic " + payload(pl, s)
+					if trimmed { // the secrets with their surrounding white space removed
+						if pl != "right" {
+							continue
+						}
+						c.Payload = "right-trimmed"
+						c.Hdr = "Basic " + b64(strings.TrimSpace(x.u)+":"+strings.TrimSpace(x.p))
+					}
+					if pl == "right" && !trimmed {
+						c.Std = 1
+					}
+					req, err := http.NewRequest("GET", fmt.Sprintf("http://127.0.0.1:%d/api/v1/dags", port), nil)
+					if err != nil {
+						continue
+					}
+					req.Header.Set("Authorization", c.Hdr)
+					resp, err := http.DefaultClient.Do(req)
+					if err != nil {
+						c.Class = -1
+						emit(c)
+						continue
+					}
+					_ = resp.Body.Close()
+					c.Code = resp.StatusCode
+					switch resp.StatusCode {
+					case 401:
+						c.Class = 3
+					case 200:
+						c.Class, c.Api = 4, true
+					default:
+						c.Class = -1
+					}
+					emit(c)
+				}
+			}
+		} else {
+			emit(Case{Stream: "server", HB: true, U: x.u, P: x.p, Class: -1, Scheme: "server did not come up"})
+		}
+		srv.Shutdown()
+		cancel()
+		select {
+		case <-done:
+		case <-time.After(10 * time.Second):
+		}
+	}
+}
+
 func main() {
 	out, err := vh.NewOut(os.Args[1])
 	if err != nil {
@@ -258,6 +371,12 @@ func main() {
 		exec(&c)
 		out.Put(c)
 	}
+	emitRaw := func(c Case) { // already executed
+		c.K = k
+		k++
+		out.Put(c)
+	}
+	_ = emitRaw
 	if tier == "replay" {
 		f, err := os.Open(os.Args[3])
 		if err != nil {
@@ -332,6 +451,20 @@ func main() {
 		emit(build("sample", rng.Below(4), rng.Below(len(secretSets)), b, methods[rng.Below(len(methods))], target,
 			schemes[rng.Below(len(schemes))], spacings[rng.Below(len(spacings))], payloads[rng.Below(len(payloads))]))
 	}
+	// pinned (every tier): the standard forms and their closest non-secrets for every secret set x configuration x base path
+	for cfg := 1; cfg < 4; cfg++ {
+		for sec := range secretSets {
+			for b := 0; b < 2; b++ {
+				for _, kh := range [][3]string{{"Basic", "one", "right"}, {"Basic", "one", "pass-colon-junk"}, {"Basic", "one", "pass-first-colon-part"},
+					{"Basic", "one", "empty-pass"}, {"Bearer", "one", "token"}, {"Bearer", "one", "token-prefix"}} {
+					c := build("pinned", cfg, sec, bases[b], "GET", apiTarget(bases[b]), kh[0], kh[1], kh[2])
+					emit(c)
+				}
+			}
+		}
+	}
+	// server (every tier): the configuration goes through config.Config -> frontend.New -> Serve on a 127.0.0.1 port
+	serverStream(emitRaw, filepath.Dir(os.Args[1]))
 	if tier == "thorough" {
 		for _, x := range gs {
 			emitG(x)
